@@ -19,7 +19,7 @@ INFO = dict(
               'the sum of all amounts recorded for it. (b) Percentiles: real _SampleSet, _Downsample, CalculatePercentile and Aggregate over k '
               'symbolic real samples of one source: every reported percentile lies between the smallest and largest sample and percentiles are '
               'non-decreasing in the percentile rank; the reported mean lies in the same band.',
-  bounds={'quick': '<=3 updates with field values from a 2-value pool per field (symbolic), amounts any integer; <=4 samples', 'thorough': '<=4 updates from a 3-value pool; <=5 samples'},
+  bounds={'quick': '<=3 updates with field values from a 2-value pool per field (symbolic), amounts any integer; <=4 samples; <=3 samples spread over symbolic gaps of up to 10 minutes on the low-resolution clock', 'thorough': '<=4 updates from a 3-value pool; <=5 samples'},
   outside=['reservoir down-sampling beyond 1000 samples per source (random replacement)', 'IEEE rounding of the percentile interpolation (exact reals, A2)'],
   stubs=['LOW_RESOLUTION_TIME_SOURCE: the module-level object as imported (constant clock)', 'random.random in scales.varz -> symbolic [0,1) (unused below the reservoir size)'],
   assumptions=['A2 exact reals for sample arithmetic'],
